@@ -103,7 +103,8 @@ func ZZ_C10_followRetries() {
 		ret = bp.StartFollowChain(ctx, req, stream)
 		done = true
 	}()
-	zz.WhenStuck(cancel) // the operator gives up once nothing moves any more
+	zz.WhenStuck(cancel)                 // the operator gives up once nothing moves any more ...
+	zz.AfterWall(8*time.Second, cancel) // ... or after 8 periods of retrying (the chain's period is 1 s)
 	zz.Quiesce()
 	for i := 0; i < 4 && !done; i++ {
 		zz.Quiesce()
